@@ -35,8 +35,9 @@ Definition fn_unpack (data : bytes) (num_bytes_err_code : Z) (num_bytes_data : o
   do c <- pfe_unpack data pfc;
   Ok {| fn_code := c; fn_data := slice data num_bytes_err_code (num_bytes_err_code + nd) |}.
 
-(* FailureNotice defines no __eq__: `==` between two distinct objects is identity, i.e. False *)
-Definition fn_eqb_distinct (a b : fnotice) : bool := false.
+(* FailureNotice.__eq__ : self.code == other.code and self.data == other.data *)
+Definition fn_eqb (a b : fnotice) : bool :=
+  pfe_eqb (fn_code a) (fn_code b) && bytes_eqb (fn_data a) (fn_data b).
 
 (* ---- VerificationParams ---- *)
 Record vparams := { vp_req : reqid; vp_step : option pfe; vp_fn : option fnotice }.
@@ -66,10 +67,10 @@ Definition vp_verify (v : vparams) (subservice : Z) : res unit :=
     if negb (subservice =? SUB_STEP_OK) && negb (is_none (vp_step v)) then Err EVerifParams else
     Ok tt.
 
-(* dataclass __eq__ of two DISTINCT VerificationParams objects holding distinct field objects:
-   tuple comparison, item by item, stopping at the first unequal item.
-   RequestId.__eq__ compares as_u32; PacketFieldEnum.__eq__ reads other.pfc (AttributeError
-   when the other side is None); FailureNotice has no __eq__ (identity). *)
+(* dataclass __eq__ of two VerificationParams objects: tuple comparison, item by item,
+   stopping at the first unequal item.  RequestId.__eq__ compares as_u32;
+   PacketFieldEnum.__eq__ reads other.pfc (AttributeError when the other side is None);
+   FailureNotice.__eq__ answers False for a non-FailureNotice. *)
 Definition vp_eq (a b : vparams) : res bool :=
   if negb (reqid_eqb (vp_req a) (vp_req b)) then Ok false else
   do st <- match vp_step a, vp_step b with
@@ -80,7 +81,7 @@ Definition vp_eq (a b : vparams) : res bool :=
   if negb st then Ok false else
   match vp_fn a, vp_fn b with
   | None, None => Ok true
-  | Some x, Some y => Ok (fn_eqb_distinct x y)
+  | Some x, Some y => Ok (fn_eqb x y)
   | _, _ => Ok false
   end.
 
